@@ -629,6 +629,7 @@ func writeEvidence(prop, tier string, seed uint64, b *build, bt *batch, tc tierC
 		"stalled_worker_restarts": bt.stalled,
 		"instrumentation": map[string]any{
 			"lock_yield_sites": b.overlay.LockSites,
+			"sync_yield_sites": b.overlay.SyncSites,
 			"lru_size_sites":   b.overlay.SizeSites,
 			"files_rewritten":  b.overlay.Files,
 		},
